@@ -122,6 +122,8 @@ def lifted_equals_plain(t, mi, li, sel, a, b, x, n, k0, c0, n0, h0, k1, c1, n1, 
     return L.switch(sel, [body, alt, noop], sc, xx, variables=lift_filter,
                     rngs=True)
   t = pick(list(range(NT)), t)
+  if t < 3 and sel != 0:
+    raise Reject()                 # the selector only matters for cond / switch
   if t == 2:
     # map_variables lifts every collection (variables=True); only the mapped ones
     # pass through map_in_fn / map_out_fn
@@ -350,7 +352,7 @@ def obligations(tier):
          dict(t=I(0, NT - 1), mi=I(0, 6 if quick else nmut),
               li=I(1, 6 if quick else nmut), sel=I(0, 2), a=I(-3, 3),
               b=I(-3, 3), x=I(-3, 3), n=I(1, 1), k0=kind, c0=col,
-              n0=nm, h0=B() if not quick else I(0, 0),
+              n0=nm, h0=B(),
               k1=I(0, 0),
               c1=I(0, 0), n1=I(0, 0),
               h1=I(0, 0)),
@@ -360,7 +362,7 @@ def obligations(tier):
                 'programs of %s ops (7 kinds x 3 collections x 2 names%s), '
                 'predicate / index 0..2' % (
                     7 if quick else nmut + 1, 6 if quick else nmut,
-                    '1', '' if quick else ' x root/child')),
+                    '1', ' x root/child')),
       Ob('lifted_while_loop', lifted_while,
          dict(mi=I(1, nmut), a=I(-3, 3), b=I(-3, 3), init=I(-2, 2), limit=I(-2, 5),
               split=B()), split=('mi',), timeout=600, funcs=F,
